@@ -12,7 +12,7 @@ pub fn run(ctx: &Ctx) -> i32 {
     let ug = [0.6f32, 1.0, 3.3, 5.7];
     let uf = [0.8f32, 2.2, 5.7, 7.0];
     let gn = [0.2f32, 0.5, 0.85, 0.0];
-    let gsh = [None, Some(0.05f32), Some(0.337)];
+    let gsh = [None, Some(0.05f32), Some(0.337), Some(0.0)];
     let sp = Grid::new(&[
         ("f_f", ff.len()),
         ("delta_u", du.len()),
@@ -109,6 +109,16 @@ pub fn run(ctx: &Ctx) -> i32 {
             _ => ctx.violation("wincons.g_glshwi:formula", &format!("g_glshwi={:?} expected {:?}", gshwi, gshwi_ref), case()),
         }
 
+        // --- the same construction after the model went through its JSON form (what the export tool hands on)
+        if let Some(m2) = m.as_json().ok().and_then(|j| Model::from_json(&j).ok()) {
+            let wc2 = &m2.cons.wincons[0];
+            let (u2, gwi2, gshwi2) = (wc2.u_value(&m2.cons), wc2.g_glwi(&m2.cons), wc2.g_glshwi(&m2.cons));
+            if u2 != u || gwi2 != gwi || gshwi2 != gshwi {
+                ctx.violation("wincons:changed-by-json-round-trip", &format!("U, g_glwi, g_glshwi = {:?}, {:?}, {:?} before and {:?}, {:?}, {:?} after writing the model to JSON and reading it back", u, gwi, gshwi, u2, gwi2, gshwi2), case());
+            }
+        } else {
+            ctx.violation("wincons:model-json-does-not-load", "the model's own JSON does not load back", case());
+        }
         // --- downstream observation
         let ind = m.energy_indicators();
         let wp = ind.props.wincons.get(&uid("winc")).unwrap();
@@ -220,7 +230,7 @@ pub fn run(ctx: &Ctx) -> i32 {
     ctx.nontriv(nt);
     ctx.finish(
         "model_checking",
-        "full Cartesian product f_f{0,.1,.25,.5,1} x dU{0,10,50} x Uglass{.6,1,3.3,5.7} x Uframe{.8,2.2,5.7,7} x g_n{.2,.5,.85,0 (opaque panel)} x g_glshwi{None,.05,.337} x glass ref{ok,nil,dangling} x frame ref{ok,nil,dangling}, each construction observed directly (WinCons::u_value/g_glwi/g_glshwi) and inside a one-window box model through props.wincons, K_data.windows and q_soljul_data; tuples are distinct by construction; all ordered pairs of a 96-construction alphabet (f_f{0,.25} x dU{0,10} x g_glshwi(3) x glazing{gl,gl2,nil,dangling} x frame{fr,nil}) as two constructions of one model with one window each, every props.wincons entry against the formula for that construction alone and the mean window U in K against the two values (5.7 where a construction has none); non-trivial = glazing and frame both resolve (formula path)",
+        "full Cartesian product f_f{0,.1,.25,.5,1} x dU{0,10,50} x Uglass{.6,1,3.3,5.7} x Uframe{.8,2.2,5.7,7} x g_n{.2,.5,.85,0 (opaque panel)} x g_glshwi{None,.05,.337,0 (opaque shading)} x glass ref{ok,nil,dangling} x frame ref{ok,nil,dangling}, each construction observed directly (WinCons::u_value/g_glwi/g_glshwi), again after a JSON round trip of the model, and inside a one-window box model through props.wincons, K_data.windows and q_soljul_data; tuples are distinct by construction; all ordered pairs of a 96-construction alphabet (f_f{0,.25} x dU{0,10} x g_glshwi(3) x glazing{gl,gl2,nil,dangling} x frame{fr,nil}) as two constructions of one model with one window each, every props.wincons entry against the formula for that construction alone and the mean window U in K against the two values (5.7 where a construction has none); non-trivial = glazing and frame both resolve (formula path)",
         true,
         json!({"space_size": n, "pairs": np}),
     )
